@@ -203,7 +203,8 @@ def run(ctx):
                         continue
                     returned = any(strip(rv) is c for rv in f.body.ret_val.values())
                     rooted = any(strip(st.root).kind == 'param' and st.fields() == ('root',) and strip(st.value) is c for st in f.body.stores)
-                    cols = [st for st in f.body.stores if prog.accessor_call(strip(st.root)) is not None and strip(prog.accessor_call(strip(st.root))[2]) is c and st.fields() == ('color',)]
+                    from summaries import writes_to
+                    cols = [(vd, site) for (flds, vd, site, vv) in writes_to(prog, f, c) if flds == ('color',)]
                     if rooted:
                         continue        # the root's colour is deliberately unconstrained
                     if not returned:
@@ -212,8 +213,8 @@ def run(ctx):
                     if len(cols) != 1:
                         ctx.add('COLOR', f, 'fresh-node', 'violation', 'the colour of a fresh non-root node is written %d times' % len(cols), PROPS, line)
                         continue
-                    v = strip(cols[0].value)
-                    name = v.extra['variant']['name'] if v.kind == 'agg' and v.extra.get('variant') else show(v, 2)
+                    vd = cols[0][0]
+                    name = vd[1] if vd[0] == 'variant' else str(vd)
                     if name == 'Red':
                         ctx.add('COLOR', f, 'fresh-node', 'ok', 'a freshly linked non-root node is red (black heights unchanged by the insertion itself)', PROPS, line)
                     else:
